@@ -107,7 +107,9 @@ class SparseOracle:
         # (b) in place
         for i, (w, p) in enumerate(zip(weights, self.params)):
             if w is not p:
-                res.violate("C06:not_in_place:param%d" % i, {"param": i})
+                # not a violation by itself (the property does not prescribe in-place updates); if the optimiser and the
+                # model drift apart because of it, the prox comparison below reports it
+                res.probe("weights_rebound_param%d" % i)
         lr_now = m.optimiser_.learning_rate
         thr = m.alpha * lr_now
         groups = getattr(m, "groups_", None)
